@@ -494,6 +494,13 @@ class Ranger:
                 return (v, v)
             return (None, None)
         if k == "len":
+            x = t[1]
+            if x[0] == "clobbered" and isinstance(x[1], int) and x[1] < len(self.body.blocks):
+                # the last thing that happened to the container was a push: it is not empty
+                tm = self.body.blocks[x[1]]["term"]
+                if tm and tm["k"] == "call" and (callee_name(tm) or "").rsplit("::", 1)[-1] in ("push", "push_back", "push_front") and \
+                        ("Vec" in (callee_name(tm) or "") or "VecDeque" in (callee_name(tm) or "") or "LinkedList" in (callee_name(tm) or "")):
+                    return (1, ISIZE_MAX)
             if self.length_of is not None:
                 ls = self.length_of(t[1])
                 if ls is not None and not ls[0]:
@@ -976,7 +983,7 @@ class Prover:
     def maxval(self, l):
         tot = l[1]
         for atom, c in l[0].items():
-            r = self.ranger.rng(atom) if atom[0] != "len" else (0, ISIZE_MAX)
+            r = self.ranger.rng(atom)
             if c > 0:
                 if r[1] is None:
                     return None
